@@ -51,6 +51,16 @@ struct RunCtx {
     }
 };
 
+/// In --mode mem (C17) AddressSanitizer is the only oracle: an oracle failure that is not a crash (a wrong answer, an
+/// exception on in-domain input) belongs to the semantic property of that engine, never to C17, and is dropped here.
+inline void mem_mode_filter(const RunCtx &ctx, CaseResult &r) {
+    if (ctx.mode == "mem" && !r.ok) {
+        r.ok = true;
+        r.msg.clear();
+        r.label("mem_mode_semantic_mismatch_ignored");
+    }
+}
+
 struct Engine {
     const char *name;
     size_t tape_len;                                   ///< words generated per case
